@@ -160,9 +160,13 @@ Definition md_ops : dict_ops memdict := mkDictOps memdict md_lookup md_user_look
 (* ---- the same dictionary when the SYSTEM layer is a trie FILE (what chewing_new2 loads; capi cases) ----
    Trie::lookup_first_n_phrases with FuzzyPartialPrefix walks the index level by level and keeps every child whose
    syllable starts_with the query's (partial) syllable: the answer is the phrases of every key of the same length
-   that matches syllable by syllable, keys in ascending order of their codes (children are stored in that order),
-   each key's phrases in leaf order - the order `md_sys` lists them in.  The user layer (an in-memory TrieBuf whose
-   entries are all pending) matches its key exactly under every strategy (TrieBuf::entries_iter_for). *)
+   that matches syllable by syllable, the keys in the order of the file's sibling records, each key's phrases in
+   leaf order.  `md_sys` lists the file's entries in the order of its own enumeration (Trie::entries), in which keys
+   of equal length come in exactly that order - so the answer is the matching entries in listing order.  For a file
+   TrieBuilder wrote that is the ascending order of the syllable codes (C11_fuzzy_lookup_returns_the_matching_entries);
+   the format does not require it, and the capi cases also read files whose sibling records are reversed / rotated.
+   The user layer (an in-memory TrieBuf whose entries are all pending) matches its key exactly under every strategy
+   (TrieBuf::entries_iter_for). *)
 Fixpoint syls_match (entry query : list N) : bool :=
   match entry, query with
   | [], [] => true
@@ -170,22 +174,9 @@ Fixpoint syls_match (entry query : list N) : bool :=
   | _, _ => false
   end.
 
-Fixpoint insert_by_key (x : dentry) (l : list dentry) : list dentry :=
-  match l with
-  | [] => [x]
-  | y :: l' =>
-    let '(kx, _, _, _) := x in
-    let '(ky, _, _, _) := y in
-    match lex_compare kx ky with
-    | Gt => y :: insert_by_key x l'
-    | _ => x :: l
-    end
-  end.
-Definition sort_by_key (l : list dentry) : list dentry := fold_right insert_by_key [] l.
-
 Definition tbf_lookup (entries : list dentry) (k : list N) : list phrase :=
   map (fun x => let '(_, t, f, _) := x in (t, f))
-      (sort_by_key (filter (fun x => let '(k', _, _, _) := x in syls_match k' k) entries)).
+      (filter (fun x => let '(k', _, _, _) := x in syls_match k' k) entries).
 
 Definition mdf_lookup (d : memdict) (fuzzy : bool) (k : list N) : list phrase :=
   (* Layered merges by text from the empty list: two matching keys of the file may carry the same text *)
